@@ -416,7 +416,7 @@ def history_unit(h):
 from contracts import C02 as _c02   # noqa: E402
 from pyvc.verify import UNITS as _UNITS   # noqa: E402
 for _u in list(_UNITS.get('C02', [])):
-    if _u.name in ('calc-starting-mass', 'phase-wrappers', 'level-change.climb', 'level-change.descent', 'cruise'):
+    if _u.name in ('calc-starting-mass', 'phase-wrappers', 'level-change.climb', 'level-change.descent', 'cruise', 'context.altitudes'):
         unit('C17', 'callee-frame.' + _u.name, _u.func, replay='contracts.C17:replay', max_paths=_u.max_paths,
              timeout_ms=_u.timeout_ms)(_u.fn)
 
@@ -544,6 +544,27 @@ def replay(payload):
                     if not own or not abs(own[0]) < tol:
                         problems.append(f'{m.label}: mass iteration with relative tolerance {tol!r} returned a trajectory whose leftover-fuel '
                                         f'residual is {own[0] if own else None!r}')
+        # an airport above the cruise level (a performance model with a low ceiling): the original reason, as a ValueError
+        try:
+            d3 = copy.deepcopy(d2)
+            low = []
+            for ceiling in (9000, 7000, 12000):
+                d3['maximum_altitude_ft'] = ceiling
+                low.append(PerformanceModel.from_data(copy.deepcopy(d3)))
+            hb = LegacyBuilder(options=Options(iterate_mass=False, use_weather=False))
+            for pml in low:
+                for m in missions:
+                    try:
+                        hb.fly(pml, m)
+                    except ValueError:
+                        pass
+                    except (AttributeError, TypeError, NameError, UnboundLocalError, KeyError) as e:
+                        problems.append(f'{m.label} with a ceiling of {pml.maximum_altitude_ft} ft: the rejection surfaced as the internal error {type(e).__name__}: {e}')
+                        break
+                    except Exception:   # noqa
+                        pass
+        except Exception as e:   # noqa
+            problems.append(f'low-ceiling models: {type(e).__name__}: {e}')
         # weather-enabled flights rejected before any weather file was opened: missing weather for the departure date,
         # and an out-of-envelope state at the first climb point
         wb = LegacyBuilder(options=Options(iterate_mass=False, use_weather=True))
